@@ -341,10 +341,20 @@ pub fn scope(name: &str) -> Scope {
         "FXA" => scope("FX").wrapped("FXA", "^", "", &['a', 'b']),
         // capturing groups inside alternations that are tried, abandoned and replaced
         // by a later branch (no quantifiers: every capture question is about rollback)
-        "ALTC" => Scope::new("ALTC", &["a", "b", "(a)", "(?:ab)", "(ab)", "(a|ab)"], &[], true, &['a', 'b']),
+        "ALTC" => Scope::new("ALTC", &["a", "b", "(a)", "(?:ab)", "(ab)", "(a|ab)", "(a)b", "abb"], &[], true, &['a', 'b']),
         // a required iteration of an enclosing repeat that must be empty and
         // contains a min-0 variable-length repeat (zero-length-match history)
         "HIST" => Scope::new("HIST", &["(?:(?:a|bb)*$)", "(?:(?:a|bb)*)", "(?:^(?:a|bb)*)", "b"], &["{2}", "{2,3}", "{1,2}", "+"], false, &['a', 'b']),
+        // characters beyond the first hundred code points of the big classes (the
+        // disjointness test gives up after 100 characters), next to those classes
+        "HI" => Scope::new("HI", &["z", "\u{e9}", ".", "[^a]", "\\S", "[x-z]", "\\P{Lu}"], &["*", "+", "?", "{1,2}", "*?"], false, &['z', '\u{e9}', 'x']),
+        // top-level alternation with an empty last / first branch
+        "K0E" => scope("K0").wrapped("K0E", "", "|", &['a', 'b', '\n']),
+        "K0S" => scope("K0").wrapped("K0S", "|", "", &['a', 'b', '\n']),
+        // small alternation scope for the rewrite laws
+        "ALTS" => Scope::new("ALTS", &["a", "b", "(?:a|$)", "(?:^|a)", "(?:a|b?)", "(?:ab)"], &["*", "+", "?", "{1,2}", "{0,2}"], false, &['a', 'b']),
+        // a repeat before a group whose body starts with an optional variable-length term
+        "SEQO" => Scope::new("SEQO", &["a", "[ab]", "(?:(?:bb|b)?a)", "(?:b?a)"], &["*", "+", "?", "{1,2}"], false, &['a', 'b']),
         // literal prefixes that overlap themselves (prefix-scan shortcut), longer inputs
         "LP" => Scope::new("LP", &["a", "b", "aa", "ab", "aab", "aba", "abab"], &["*", "?", "+"], false, &['a', 'b']),
         // group nesting: capturing groups around / beside possibly-empty terms
